@@ -40,7 +40,12 @@ impl<'a> RegExp<'a> {
         let mut ast = Expression::from(dfa, config);
 
         if config.is_end_anchor_disabled {
-            let mut regex = Self::convert_expr_to_regex(&ast, config);
+            let mut regex = match Self::convert_expr_to_regex(&ast, config) {
+                Some(regex) => regex,
+                // A pattern with surrogate pairs is not written for the regex crate
+                // and does not compile there: nothing can be checked then.
+                None => return Self { ast, config },
+            };
 
             if config.is_verbose_mode_enabled {
                 // Remove line breaks before checking matches, otherwise check will be incorrect.
@@ -52,9 +57,10 @@ impl<'a> RegExp<'a> {
             ) {
                 dfa = Dfa::from(&grapheme_clusters, false, config);
                 ast = Expression::from(dfa, config);
-                regex = Self::convert_expr_to_regex(&ast, config);
+                let is_each_test_case_matched = Self::convert_expr_to_regex(&ast, config)
+                    .map_or(false, |regex| Self::regex_matches_all_test_cases(&regex, test_cases));
 
-                if !Self::regex_matches_all_test_cases(&regex, test_cases) {
+                if !is_each_test_case_matched {
                     let mut exprs = vec![];
                     for cluster in grapheme_clusters {
                         let literal = Expression::new_literal(cluster, config);
@@ -85,12 +91,12 @@ impl<'a> RegExp<'a> {
             .collect_vec();
     }
 
-    fn convert_expr_to_regex(expr: &Expression, config: &RegExpConfig) -> Regex {
+    fn convert_expr_to_regex(expr: &Expression, config: &RegExpConfig) -> Option<Regex> {
         if config.is_output_colorized {
             let color_replace_regex = Regex::new("\u{1b}\\[(?:\\d+;\\d+|0)m").unwrap();
-            Regex::new(&color_replace_regex.replace_all(&expr.to_string(), "")).unwrap()
+            Regex::new(&color_replace_regex.replace_all(&expr.to_string(), "")).ok()
         } else {
-            Regex::new(&expr.to_string()).unwrap()
+            Regex::new(&expr.to_string()).ok()
         }
     }
 
